@@ -41,6 +41,7 @@ PROP = Property(
                    "ares_buf_fetch_be16", "ares_buf_fetch_be32", "ares_buf_peek_byte", "ares_buf_fetch_bytes",
                    # containers (Dsa/Dsa_gen_agree.v)
                    "ares_array_set_size", "ares_array_remove_last", "ares_array_len", "ares_slist_max_level",
-                   "ares_slist_len", "ares_llist_len", "ares_htable_num_keys"],
+                   "ares_slist_len", "ares_llist_len", "ares_htable_num_keys",
+                   "ares_llist_node_detach"],  # Dsa/LList_gen_agree.v
     rule="random/boundary-directed operation sequences per container; non-trivial = at least two state-changing operations succeeded in the model; distinct by case text",
 )
